@@ -51,8 +51,11 @@ func answerQuery(alg int, key, msg, sig []byte) bool {
 			return false
 		}
 		return ed25519.VerifyWithOptions(ed25519.PublicKey(key), msg, sig, &ed25519.Options{Hash: 7 /* crypto.SHA512 */}) == nil
+	case 0:
+		// DSA-SHA1 with the I2P parameters, through crypto/dsa (harness/dsa.go)
+		return dsaVerify(key, msg, sig)
 	default:
-		// DSA / ECDSA: the harness only ever supplies random signatures for these
+		// ECDSA: the harness only ever supplies random signatures for these
 		return false
 	}
 }
@@ -114,6 +117,12 @@ func resolveQueries(dir string) error {
 // under the contained identity's key over exactly the consumed bytes (with the store-type
 // prefix), and a transient key was authorised by the identity's key
 func authenticRaw(prefix []byte, consumed []byte, idkey []byte, sigLen int, off *offline_signature.OfflineSignature) (bool, string) {
+	if sigLen > 0 && sigLen <= len(consumed) && len(idkey) == 128 && off == nil {
+		if !dsaVerify(idkey, cat(prefix, consumed[:len(consumed)-sigLen]), consumed[len(consumed)-sigLen:]) {
+			return false, "DSA signature does not verify under the identity key over the received bytes"
+		}
+		return true, ""
+	}
 	if sigLen <= 0 || sigLen > len(consumed) || len(idkey) != 32 {
 		return false, "no signature / identity key is not an Ed25519 key"
 	}
@@ -209,10 +218,14 @@ func c05Impl(sc signedCase) (verdict bool, authentic bool, why string) {
 		b, _ := ls.Bytes()
 		consumed := in[:min(len(b), len(in))]
 		d := ls.Destination()
+		sig := ls.Signature()
+		if d.KeyCertificate.SigningPublicKeyType() == 0 {
+			authentic, why = authenticRaw(nil, consumed, in[384-128:384], len(sig.Bytes()), nil)
+			break
+		}
 		if !edType(d.KeyCertificate.SigningPublicKeyType()) {
 			return verdict, false, "identity key type not verifiable by the harness, yet verified with a random signature"
 		}
-		sig := ls.Signature()
 		authentic, why = authenticRaw(nil, consumed, in[384-32:384], len(sig.Bytes()), nil)
 	case E_VerifyLeaseSet2:
 		ls, rem, err := lease_set2.ReadLeaseSet2(in)
@@ -480,6 +493,41 @@ func runC05(c *Ctx) {
 			ls2.Sig = ed25519.Sign(attacker.priv, ls2.Encode())
 			sc.input = ls2.Encode()
 			c05Run(c, sc, 0)
+		}
+		if i < 12 {
+			// authentic under a legacy DSA identity: NULL certificate (ElGamal + DSA-SHA1), and KEY
+			// certificates declaring DSA next to a 256-byte and next to a 32-byte encryption key (the
+			// signing key then fills its 128-byte field and all padding lies next to the encryption
+			// key); every byte of the destination is covered by the signature
+			dk := genDSA(r)
+			var id Ident
+			switch i % 3 {
+			case 0:
+				id = genIdentTypes(r, 0, 0, true)
+			case 1:
+				id = genIdentTypes(r, 0, 0, false)
+			default:
+				id = genIdentTypes(r, 0, 4, false)
+			}
+			id.Spk = cp(dk.pub)
+			for j := range id.Pad {
+				id.Pad[j] |= 1
+			}
+			dl := genLeaseSet(r)
+			dl.Dest = id
+			dl.Spk = cp(dk.pub)
+			dl.Sig = nil
+			dl.Sig = dsaSign(r, dk, dl.Encode())
+			wd := dl.Encode()
+			scd := signedCase{E_VerifyLeaseSet, "LeaseSet.Verify (DSA identity)", nil, wd, nil}
+			c05Run(c, scd, 1)
+			// one bit flipped anywhere in the destination (keys, padding, certificate): not authentic
+			for _, pos := range []int{0, 31, 32, 100, 255, 256, 300, 383, len(id.Encode()) - 1} {
+				m := cp(wd)
+				m[pos] ^= 1 << uint(r.Intn(8))
+				scd.input = m
+				c05Run(c, scd, -1)
+			}
 		}
 		{ // other signing types with a random signature never verify
 			l3 := genLeaseSet(r)
